@@ -1169,6 +1169,8 @@ def r11(ctx, cfg):
 
     def bonded(o):
         o = peel(o)
+        if o[0] == "field" and o[2] == "denom" and peel(o[1])[0] == "ok" and peel(peel(o[1])[1])[0] == "call" and peel(peel(o[1])[1])[1] == SK + "get_rewards_internal":
+            return True     # the denomination of the reward coin: the bonded denomination read by get_rewards_internal (C15.R2)
         return o[0] == "field" and o[2] == "bonded_denom" and contains(o[1], lambda x: x[0] == "call" and x[1] in (SK + "get_staking_info", "cw_storage_plus::Item::load", "cw_storage_plus::Item::may_load"))
 
     # ---- get_stake
@@ -1282,6 +1284,16 @@ def r11(ctx, cfg):
                 contains(peel(o[1])[2], lambda x: x[0] == "call" and x[1] == SK + "get_validators")
         amt = peel(a[2])
         from_get_stake = contains(amt, lambda x: x[0] == "call" and x[1] == SK + "get_stake" and validated(x[2][2], "AllDelegations", "delegator") and just(x[2][3], elem_addr))
+        if not from_get_stake:
+            # the same answer written out (get_stake's body in the loop): Coin { bonded denomination, floor(STAKES[(delegator, validator.address)].stake) }
+            def own_entry(o):
+                def mine(x):
+                    return x[0] == "call" and x[1] == "cw_storage_plus::Map::may_load" and peel(x[2][0]) == STAKES and peel(x[2][2])[0] == "agg" and \
+                        len(peel(x[2][2])[2]) == 2 and validated(peel(x[2][2])[2][0][1], "AllDelegations", "delegator") and just(peel(x[2][2])[2][1][1], elem_addr)
+                return contains(o, mine) and not contains(o, lambda x: x[0] == "call" and x[1].startswith("cw_storage_plus::Map::") and peel(x[2][0]) == STAKES and not mine(x))
+            am0, dn0 = coin_parts(amt)
+            from_get_stake = am0 is not None and floor_of_stake(am0, own_entry) and not contains(dn0, lambda x: x[0] == "const") and \
+                contains(dn0, lambda x: x[0] == "field" and x[2] == "bonded_denom" and contains(x[1], lambda y: y[0] == "call" and y[1] == SK + "get_staking_info"))
         ok = validated(a[0], "AllDelegations", "delegator") and just(a[1], elem_addr) and from_get_stake
         d = "Delegation::new(%s, %s, %s)" % (fmt(a[0])[:40], fmt(a[1])[:40], fmt(amt)[:60])
         adapters = [t2["callee"]["name"] for g3 in F.lexical(QUERY) for b2, t2 in g3.calls()
